@@ -237,4 +237,8 @@ example : (d1Lo [[1, 0], [0, 1]] [1, 1]).isSome = true := by decide +kernel
 /-- an infeasible proposal is rejected -/
 example : alphaLo [[1, 0], [0, 1]] 0 [1, -1] = none := by decide +kernel
 
+/-- the `u*` certificate accepts a feasible/dual pair for the orthant and rejects an infeasible `z` -/
+example : (ustarCert [[1, 0], [0, 1]] [3/5, 4/5] 2 [1, 1] [1, 1]).isSome = true := by decide +kernel
+example : ustarCert [[1, 0], [0, 1]] [3/5, 4/5] 2 [1, 1/2] [1, 1] = none := by decide +kernel
+
 end VOPy.C17
